@@ -86,7 +86,10 @@ def gen_consts():
     """constants translator: regenerates coq/gen/Consts.v from the Rust source"""
     rc, out = sh([sys.executable, os.path.join(ROOT, "tools", "consts.py"), REPO,
                   os.path.join(COQ, "gen", "Consts.v")], 60)
-    return rc == 0, out
+    # fragment translator: regenerates coq/gen/Frag.v (function bodies) from the Rust source
+    rc2, out2 = sh([sys.executable, os.path.join(ROOT, "tools", "rs2v.py"), REPO,
+                    os.path.join(COQ, "gen", "Frag.v")], 60)
+    return rc == 0 and rc2 == 0, out + out2
 
 
 def coq_project():
